@@ -146,7 +146,7 @@ def gen_origin_case(rng):
     for _ in range(rng.choice([0, 1, 1, 2])):
         o = leaf(rng.choice(['full', 'plain', 'd1']))
         t = {'op': rng.choice(['plus', 'product']), 'a': t, 'b': o} if rng.random() < 0.5 else {'op': rng.choice(['plus', 'product']), 'a': o, 'b': t}
-    return {'tree': t, 'r': 0.0, 'route': 'api'}
+    return {'tree': t, 'r': 0.0, 'route': 'api', 'smooth_at_r': True}     # bornmayer / polynomial / constant: smooth on the whole line
 
 def gen_case(rng, depth):
     if rng.random() < 0.1: return gen_origin_case(rng)
@@ -324,8 +324,8 @@ def oracle(case):
         try:
             num = richardson(base, r); got = offered(r)
         except Exception as e:
-            if type(e).__name__ in ('OverflowError', 'ZeroDivisionError', 'ValueError'): continue
-            fails.append('%s raised %s' % (nm, type(e).__name__)); continue
+            if type(e).__name__ in ('OverflowError', 'ZeroDivisionError', 'ValueError') and not case.get('smooth_at_r'): continue
+            fails.append('%s(%r) raised %s: %s' % (nm, r, type(e).__name__, e)); continue
         scale = max(1.0, abs(num), abs(got), abs(base(r)) if nm == 'deriv2' else 0.0)
         if not (math.isfinite(num) and math.isfinite(got)): continue
         # analytic derivatives: limited by the Richardson estimate (~1e-7); nested central differences of the
